@@ -214,19 +214,31 @@ def direct_readback(posterior, lls, S, chains, ds, case, rng):
     import chi
     from harness.toy import PolyToyModel
     hier = S is not None
-    if hier and any(s.special() for s in S):
-        return None            # an individual's parameters are not all individual-level: nothing to read back by ID
+    if hier and any(s.kind == 'H' for s in S):
+        return None            # heterogeneous dimensions have no variable of the individual's own to read back
+    # pooled dimensions are population-level variables of the dataset: the individual's parameter is read from them
+    # through param_map (a mix of (chain, draw, individual) and (chain, draw) variables in one parameter vector)
+    pmap = {}
+    if hier and any(s.kind == 'P' for s in S):
+        own = list(lls[0].get_parameter_names())
+        pop_names = list(posterior.get_log_likelihood().get_population_model().get_parameter_names())
+        for s_, (d0, p0, c0) in zip(S, popspec.slices(S)):
+            if s_.kind == 'P':
+                for d in range(s_.nd):
+                    pmap[own[d0 + d]] = pop_names[p0 + d]
     shared = {}
     for k in ([0] if not hier else range(len(lls))):
         ll = lls[k]
         kwargs = {'individual': ll.get_id()} if hier else {}
+        if pmap:
+            kwargs['param_map'] = dict(pmap)
         try:
             pw = chi.compute_pointwise_loglikelihood(ll, ds, **kwargs)
         except NotImplementedError:
             return None
         for a in range(chains.shape[0]):
             for b in range(chains.shape[1]):
-                vec = expected_individual_vector(posterior, lls, S, k, chains, a, b)
+                vec = expected_individual_vector(posterior, lls, S, k, chains, a, b, pmap)
                 want = ll.compute_pointwise_ll(vec)
                 got = np.asarray(pw.values[a, b])
                 if got.shape != np.asarray(want).shape or not np.allclose(got, want, rtol=1e-12, atol=0, equal_nan=True):
@@ -245,11 +257,13 @@ def direct_readback(posterior, lls, S, chains, ds, case, rng):
                 shared['seen'].append(np.array(parameters, dtype=float))
                 return orig(parameters, *a, **kw)
             pm.sample = rec
-            shared['ppm'] = chi.PosteriorPredictiveModel(pm, ds)
+            shared['ppm'] = chi.PosteriorPredictiveModel(pm, ds, param_map=dict(pmap)) if pmap else \
+                chi.PosteriorPredictiveModel(pm, ds)
         seen = shared['seen']
         del seen[:]
-        shared['ppm'].sample([1.0, 2.0], n_samples=3, seed=rng.randrange(10 ** 6), **kwargs)
-        rows = [expected_individual_vector(posterior, lls, S, k, chains, a, b)
+        shared['ppm'].sample([1.0, 2.0], n_samples=3, seed=rng.randrange(10 ** 6),
+                             **{k_: v_ for k_, v_ in kwargs.items() if k_ != 'param_map'})
+        rows = [expected_individual_vector(posterior, lls, S, k, chains, a, b, pmap)
                 for a in range(chains.shape[0]) for b in range(chains.shape[1])]
         for v in seen:
             if not any(np.array_equal(v, r) for r in rows):
@@ -257,6 +271,30 @@ def direct_readback(posterior, lls, S, chains, ds, case, rng):
                         'individual' % (ll.get_id(), v))
         if len(seen) != 3:
             return 'PosteriorPredictiveModel.sample drew %d parameter vectors for 3 samples' % len(seen)
+        # the same draws stored under swapped variable names, read through the param_map that swaps them back
+        own = list(ll.get_parameter_names())
+        if not pmap and len(own) >= 2 and all(n in ds for n in own[:2]):
+            a_, b_ = own[0], own[1]
+            ds2 = ds.rename({a_: b_, b_: a_})
+            swap = [(a_, b_), (b_, a_)]
+            if rng.random() < 0.5:
+                swap.reverse()
+            mech2 = PolyToyModel(len(own) - 1)
+            pm2 = chi.PredictiveModel(mech2, [chi.GaussianErrorModel()])
+            seen2, orig2 = [], pm2.sample
+
+            def rec2(parameters, *a, _o=orig2, _s=seen2, **kw):
+                _s.append(np.array(parameters, dtype=float))
+                return _o(parameters, *a, **kw)
+            pm2.sample = rec2
+            chi.PosteriorPredictiveModel(pm2, ds2, param_map=dict(swap)).sample(
+                [1.0, 2.0], n_samples=3, seed=rng.randrange(10 ** 6),
+                **{k_: v_ for k_, v_ in kwargs.items() if k_ != 'param_map'})
+            for v in seen2:
+                if not any(np.array_equal(v, r) for r in rows):
+                    return ('PosteriorPredictiveModel with the variables %s and %s stored under each other\'s names and '
+                            'param_map %s simulated with %s, which is no draw of individual %s' % (
+                                a_, b_, dict(swap), v, ll.get_id()))
     return None
 
 
